@@ -5,15 +5,19 @@ import sup
 def main(tier):
     c = sup.Check('C13', tier, 'model_checking')
     quick = tier == 'quick'
-    c.set_deadline(900 if quick else 3000)
+    c.set_deadline(900 if quick else 2400)
     env = {'VERIF_TIER': tier, 'VERIF_SCRATCH': c.scratch}
     c.build('asan', ['c13'])
-    if quick:
-        c.build('plain', ['c13'])
+    c.build('plain', ['c13'])
     c.run_family('asan', 'c13', 'lookupindex', env=env, chunk=7)
-    c.run_family('asan', 'c13', 'preids', env=env)
-    big = 'plain' if quick else 'asan'
-    machines = [('asan', 'annotator-core-noids'), ('asan', 'annotator-core-mixedids'), ('asan', 'annotator-full-mixedids'), (big, 'annotator-full-noids')]
+    # flavours: the memory-safety oracle (ASan/UBSan) rides on the smaller spaces of each tier; the largest spaces run on the
+    # plain library (value oracle only). One transition costs ~2.6 ms CPU under ASan and ~0.35 ms plain (measured).
+    if quick:
+        c.run_family('asan', 'c13', 'preids', env=env)
+        machines = [('asan', 'annotator-core-noids'), ('asan', 'annotator-core-mixedids'), ('asan', 'annotator-full-mixedids'), ('plain', 'annotator-full-noids')]
+    else:
+        c.run_family('plain', 'c13', 'preids', env=env)
+        machines = [('plain', 'annotator-core-noids'), ('plain', 'annotator-core-mixedids'), ('plain', 'annotator-full-mixedids'), ('asan', 'annotator-full-noids')]
     for fl, m in machines:
         c.run_family(fl, 'c13', m, env=env, per_case_timeout=3000, nsamples=1)
     states = c.counters.get('states', 0)
@@ -36,4 +40,6 @@ def main(tier):
             'the annotator\'s private state (AnnotatorImpl is defined in annotator.cpp) is read through a mirrored struct verified by a start-up probe; it feeds only the de-duplication key and the adversarial "next automatic id" menu entry',
             'the universe is built through the API (no modelgen exists): 3 components (one encapsulated child, one imported), 2 variables with one equivalence, local + imported units, 1 unit child, 1 reset, 1 shared import source; second model for foreign items',
         ],
-        extra_cov={'states': int(states), 'transitions': int(transitions), 'traces_validated_against_impl': int(transitions)})
+        extra_cov={'states': int(states), 'transitions': int(transitions), 'traces_validated_against_impl': int(transitions),
+                   'machine_depths': {'annotator-full-noids': 3, 'annotator-full-mixedids': 2 if quick else 3, 'annotator-core-noids': 3 if quick else 4, 'annotator-core-mixedids': 3 if quick else 4},
+                   'note_on_counters': 'counters are summed over the four machines (max_depth is the sum of their depths)'})
